@@ -29,7 +29,8 @@ DRIVERS = ["driver_aave"]
 RULE = ("index paths: 1-120 bars, 27-digit indices growing by 0-3 % per bar (or exactly representable ones), 2-4 tokens; operations: supply / "
         "withdraw / borrow / repay(cash|collateral) with amounts that are fractions of the balance, the exact balance, None, and split pairs "
         "(a, b) versus (a+b); quiet bars (parts of the row, or everything but one price, repeat the previous bar), the same token supplied and borrowed, "
-        "three or four borrows of one token inside one bar with cached views read in between; bucket = (check, operation, model outcome, argument class, number of bars since the position was opened)")
+        "three or four borrows of one token inside one bar with cached views read in between; update() inside the ledgered sequences whenever the health factor is not in (0, 1), "
+        "half of the bar changes preceded by the end-of-bar update() as in a real run; amounts 5e-6 above the wallet balance (Asset.sub's tolerance); bucket = (check, operation, model outcome, argument class, number of bars since the position was opened)")
 TRUSTED = ["theorems are for exact rational arithmetic; the envelope (balances <= 1e12 tokens, <= 1e4 operations) keeps the accumulated "
            "35-digit rounding below 1e-18, which this run measures on every step (exact_vs_impl_max_rel_dev)"]
 ASSUMPTIONS = ["indices are positive and non-decreasing; balances stay below 1e12 tokens",
@@ -252,6 +253,15 @@ def split_merge(ctx: Ctx, rng, m, b, env, actions):
             ctx.violate(f"split:{kind}:wallet", f"{kind} of {total} in one call vs ({a}, {rest}): wallet[{k}] {float(x)!r} vs {float(y)!r} (was {float(z)!r})", case)
 
 
+def quiet_update(m) -> bool:
+    """update() cannot liquidate: the health factor (read on a copy, so that no cache of `m` is filled) is not in (0, 1)"""
+    try:
+        hf = A.clone_market(m, False).health_factor
+    except Exception:  # noqa: BLE001
+        return False
+    return not (0 < hf < 1)
+
+
 def run_sequence(ctx: Ctx, rng, nbars, reqs, meta, exact_env):
     env = A.gen_env(rng, exact=exact_env)
     env["pandas_status"] = rng.random() < 0.4       # the status row as a real backtest hands it over: a Series with a (token, column) MultiIndex
@@ -267,7 +277,19 @@ def run_sequence(ctx: Ctx, rng, nbars, reqs, meta, exact_env):
         env_next = None
         if pending:
             op = pending.pop(0)
+            if op["kind"] == "newBar":
+                env_next = A.next_env(rng, env)
+                borrows_in_bar = {}
+            elif op["kind"] == "update":
+                if not quiet_update(m):
+                    continue
+                ctx.count("feature:update-inside-ledger")
+                ctx.count("feature:end-of-bar-update-then-new-bar")
         elif r < 0.45:
+            if rng.random() < 0.5:
+                # as the Actuator does: update() at the end of the bar, then the next bar's set_market_status
+                pending += [{"kind": "update"}, {"kind": "newBar"}]
+                continue
             env_next = A.next_env(rng, env)
             op = {"kind": "newBar"}
             borrows_in_bar = {}
@@ -297,7 +319,11 @@ def run_sequence(ctx: Ctx, rng, nbars, reqs, meta, exact_env):
             if op["kind"] in ("update", "changeCollateral") and rng.random() < 0.5:
                 continue
             if op["kind"] == "update":
-                continue           # liquidation changes balances by other means (C12); the ledger only follows user operations
+                # the end-of-bar update() of a real run: the ledger must survive it whenever it cannot liquidate (health factor not in (0, 1):
+                # C10_*_accrues_through_bars); a liquidating update changes balances by other means (C12) and is left out
+                if not quiet_update(m):
+                    continue
+                ctx.count("feature:update-inside-ledger")
         t = op.get("tok")
         before = None
         if op["kind"] in ("supply", "withdraw", "borrow", "repay") and t in env["status"]:
